@@ -263,12 +263,15 @@ class Facts:
             out += self.overriders(callee_id)
         return out
 
-    def callees(self, fn, extra_edges=None):
+    def callees(self, fn, extra_edges=None, all_sites=False):
+        """(callee definition, call fact); one edge per callee unless all_sites (then one per call site)."""
         seen = set()
         for c in fn['calls']:
             for g in self.resolve(fn, c['f'], c.get('v', False)):
                 k = self.key(g)
-                if k not in seen:
+                if all_sites:
+                    yield g, c
+                elif k not in seen:
                     seen.add(k)
                     yield g, c
         if extra_edges:
